@@ -189,13 +189,49 @@ def argv_env(case):
         if k == "g_no_color": g += ["--no-color=false"]
         elif k == "no_database": g += ["--no-database=false"]
         else: l += [FALSEFLAG[k] + "=false"]
-    argv = g + CMD_ARGV[case["cmd"]] + l
+    cmdv = list(CMD_ARGV[case["cmd"]])
+    if case.get("spell") is not None:
+        # another spelling of the same command line (Go's flag syntax as urfave/cli applies it: one or two dashes, `name value` or `name=value`, the
+        # flag's other name, a boolean as `=true`, a flag given twice - the last occurrence counts -, the command's alias); the model reads the vector itself
+        import random as _random
+        rr = _random.Random(case["spell"])
+        g, l = respell(rr, g), respell(rr, l)
+        if cmdv[0] == "reg" and rr.random() < 0.5: cmdv[0] = "register"
+        if cmdv[0] == "bal" and rr.random() < 0.5: cmdv[0] = "balance"
+    argv = g + cmdv + l
     if case.get("arg") is not None: argv += ["--", s_(case["arg"])] if s_(case["arg"]).startswith("-") else [s_(case["arg"])]
     env = {}
     for k, name in [("e_db", "HR_DATABASE"), ("e_log", "HR_LOGFILE"), ("e_fmt", "HR_DATE_FORMAT"), ("e_depth", "HR_MAXDEPTH"), ("e_config", "HR_CONFIG")]:
         if case.get(k) is not None: env[name] = s_(case[k])
     env["TZ"] = case["tz"][0] if case.get("tz") else "UTC"
     return argv, env
+
+VALUE_FLAGS = {"-d": ["d", "database"], "-l": ["l", "logfile"], "-c": ["c", "config"], "--date-format": ["date-format"], "--maxdepth": ["maxdepth"], "--today": ["today"],
+               "-b": ["b", "begin"], "-e": ["e", "end"], "-f": ["f", "single-food"], "-s": ["s", "single-element"], "--internal-template-name": ["internal-template-name"]}
+BOOL_FLAGS = {"--no-database": ["no-database"], "--no-color": ["no-color"], "-g": ["g", "group-food"], "--csv": ["csv"], "--no-totals": ["no-totals"], "--totals-only": ["totals-only"],
+              "--shorten": ["shorten"], "--use-old-reg-reporter": ["use-old-reg-reporter"], "--collapse": ["collapse", "c"], "--collapse-last": ["collapse-last"], "--desc": ["desc"],
+              "--silent": ["silent", "s"]}
+DECOY = {"d": "decoy.yaml", "database": "decoy.yaml", "l": "decoy.yaml", "logfile": "decoy.yaml", "c": "decoy.cfg", "config": "decoy.cfg", "date-format": "2006-01-02", "maxdepth": "7",
+         "f": "decoy", "single-food": "decoy", "s": "decoy", "single-element": "decoy"}
+
+def respell(rr, toks):
+    """the same flags in another of the spellings the flag syntax allows (one name per flag: urfave refuses two forms of one flag in one level)"""
+    out = []; i = 0
+    while i < len(toks):
+        t = toks[i]
+        if t in VALUE_FLAGS and i + 1 < len(toks):
+            v = toks[i + 1]; i += 2
+            name = rr.choice(VALUE_FLAGS[t]); dash = rr.choice(["-", "--"])
+            def one(val): return [dash + name + "=" + val] if rr.random() < 0.5 else [dash + name, val]
+            if rr.random() < 0.2: out += one(DECOY.get(name, v))       # given twice: the last occurrence counts
+            out += one(v)
+        elif t in BOOL_FLAGS:
+            i += 1
+            name = rr.choice(BOOL_FLAGS[t]); dash = rr.choice(["-", "--"])
+            out.append(dash + name + rr.choice(["", "", "=true", "=1", "=T"]))
+        else:
+            out.append(t); i += 1
+    return out
 
 def materialize(case, root):
     """writes the case's files under `root` (relative paths; absolute ones are refused except the default config marker)"""
